@@ -447,14 +447,17 @@ func (m *Machine) doDispose(force bool) {
 	if !force {
 		m.activeStatesMx.Lock()
 		defer m.activeStatesMx.Unlock()
+		// the tracers lock goes before the queue lock: a tracer of a transition
+		// still running (after DisposeTimeout) holds it and may read the queue
+		// (eg QueueTick), otherwise these can deadlock
+		m.tracersMx.Lock()
+		defer m.tracersMx.Unlock()
 		// the queue lock goes before the subscriptions lock, like everywhere
 		// else (eg the end of processQueue), otherwise these can deadlock
 		m.queueMx.Lock()
 		defer m.queueMx.Unlock()
 		m.subs.Mx.Lock()
 		defer m.subs.Mx.Unlock()
-		m.tracersMx.Lock()
-		defer m.tracersMx.Unlock()
 		m.handlersMx.Lock()
 		defer m.handlersMx.Unlock()
 	}
